@@ -216,6 +216,8 @@ func (b *vwDNSBuilder) query(f map[string]string, id uint16, salt string) []byte
 	switch f["lenprefix"] {
 	case "ok":
 		framed = append([]byte{byte(len(msg))}, msg...)
+	case "plus1":
+		framed = append([]byte{byte(len(msg) + 1)}, msg...)
 	case "bigger":
 		framed = append([]byte{byte(len(msg) + 10)}, msg...)
 	case "smaller":
@@ -646,8 +648,8 @@ func TestVerifWireCodecs(t *testing.T) {
 				if err != nil {
 					return "error", ""
 				}
-				if len(out) > len(b) {
-					return "accepted", "longer than the input"
+				if len(out) > len(b)-hdr {
+					return "accepted", "more bytes than the message carries behind its length prefix"
 				}
 				return "accepted", ""
 			}
@@ -683,6 +685,7 @@ func TestVerifWireCodecs(t *testing.T) {
 		}
 		deliver := func(variant string, b []byte) {
 			r.mark(row.idx, variant)
+			b = vwExact(b)
 			r.record(row, variant, vwGuard(func() (string, string) { return call(b) }))
 		}
 		deliver("", raw)
